@@ -377,7 +377,7 @@ def equal_types(a: Any, b: Any) -> bool:
         return len(a.v) == len(b.v) and all(equal_types(x, y) for x, y in zip(a.v, b.v))
     # a NAMED TypedDict class of the program (class Movie(TypedDict): ...) is a class like any other: module and qualified name
     def _named(t: Any) -> Any:
-        if isinstance(t, R) and t.kind in ("td", "cls") and t.fields.get("__name__") != K("DUMMY_NAME") and "__module__" in t.fields and "__qualname__" in t.fields:
+        if isinstance(t, R) and t.kind in ("td", "cls", "newtype") and t.fields.get("__name__") != K("DUMMY_NAME") and "__module__" in t.fields and "__qualname__" in t.fields:
             return (t.fields["__module__"], t.fields["__qualname__"])
         return None
     if _named(a) is not None and _named(a) == _named(b):
